@@ -437,7 +437,33 @@ def request_state_lemma(ex):
 
 def build(ex):
     server.install(ex)
-    return [(build_run_contract(ex, ex.prop), None), (no_capture_lemma(ex), None), (backend_wait_lemma(ex), None), (request_state_lemma(ex), None)] + transport_lemmas(ex)
+    return [(build_run_contract(ex, ex.prop), None), (no_capture_lemma(ex), None), (backend_wait_lemma(ex), None), (request_state_lemma(ex), None)] + transport_lemmas(ex) \
+        + residue_lemmas(ex)
+
+
+def residue_lemmas(ex):
+    """L6: the accept loop receives every request on ONE thread, and Ls takes recv_msg as 'a value, ConnectionClosedError, or the exception of THIS message'.
+    A request that cannot be unpickled (a faulty client) must therefore leave nothing behind on that thread that makes the NEXT recv_msg fail: remote
+    unpickling keeps per-thread state (RemoteState._active_contexts), and that a new context starts from whatever an earlier, failed loads left behind - and
+    never raises - is the lemma L1-init of the C14/C15 cone, checked here too."""
+    from . import rstate
+    saved_abs, saved_ext, saved_spec = dict(ex.abs_classes), dict(ex.ext_models), dict(ex.spec_functions)
+    rstate.install(ex)
+    built = rstate.context_lemmas(ex, 'C11')
+    for k_, v_ in saved_abs.items():
+        ex.abs_classes[k_] = v_
+    for k_, v_ in saved_ext.items():
+        ex.ext_models[k_] = v_
+    for k_, v_ in saved_spec.items():
+        ex.spec_functions[k_] = v_
+    out = []
+    for con, v in built:
+        if con.lid == 'L1-init':
+            con.lid = 'L6'
+            con.name = ('C11.L6 a request that could not be unpickled leaves nothing behind on the accept thread that makes the next one fail: a new unpickling '
+                        'context starts from whatever an earlier loads left; never raises')
+            out.append((con, v))
+    return out
 
 
 def transport_lemmas(ex):
